@@ -274,3 +274,137 @@ class CFG:
 
     def stmts(self) -> list[Node]:
         return [n for n in self.nodes if n.ast is not None]
+
+
+# ---------------------------------------------------------------------------------------------------------------------
+# path-sensitive reaching definitions under a fixed truth assignment of invariant conditions
+# ---------------------------------------------------------------------------------------------------------------------
+def eval3(test: ast.expr, env: dict[str, Optional[bool]]) -> Optional[bool]:
+    """three-valued truth of a branch condition: atoms are looked up by their normalised text in env (missing = unknown)"""
+    if isinstance(test, ast.BoolOp):
+        vals = [eval3(v, env) for v in test.values]
+        if isinstance(test.op, ast.And):
+            if any(v is False for v in vals):
+                return False
+            return True if all(v is True for v in vals) else None
+        if any(v is True for v in vals):
+            return True
+        return False if all(v is False for v in vals) else None
+    if isinstance(test, ast.UnaryOp) and isinstance(test.op, ast.Not):
+        v = eval3(test.operand, env)
+        return None if v is None else (not v)
+    if isinstance(test, ast.Constant):
+        return bool(test.value)
+    return env.get(" ".join(ast.unparse(test).split()))
+
+
+def _assigned_names(st: ast.AST) -> set[str]:
+    """names (re)bound by the head of a CFG node's statement (not by nested bodies)"""
+    out: set[str] = set()
+
+    def tgt(t: ast.AST) -> None:
+        if isinstance(t, ast.Name):
+            out.add(t.id)
+        elif isinstance(t, (ast.Tuple, ast.List)):
+            for e in t.elts:
+                tgt(e)
+        elif isinstance(t, ast.Starred):
+            tgt(t.value)
+
+    if isinstance(st, ast.Assign):
+        for t in st.targets:
+            tgt(t)
+    elif isinstance(st, (ast.AugAssign, ast.AnnAssign)):
+        if not (isinstance(st, ast.AnnAssign) and st.value is None):
+            tgt(st.target)
+    elif isinstance(st, (ast.For, ast.AsyncFor)):
+        tgt(st.target)
+    elif isinstance(st, (ast.With, ast.AsyncWith)):
+        for it in st.items:
+            if it.optional_vars is not None:
+                tgt(it.optional_vars)
+    elif isinstance(st, ast.ExceptHandler) and st.name:
+        out.add(st.name)
+    if isinstance(st, (ast.Assign, ast.AugAssign, ast.AnnAssign, ast.Expr, ast.Return)):
+        for n in ast.walk(st):
+            if isinstance(n, ast.NamedExpr) and isinstance(n.target, ast.Name):
+                out.add(n.target.id)
+    return out
+
+
+def bool_flags(fn: ast.AST) -> set[str]:
+    """local names whose every binding in fn is `name = True|False` (one-bit state the path analysis tracks exactly)"""
+    good: set[str] = set()
+    bad: set[str] = set()
+    for n in ast.walk(fn):
+        if isinstance(n, ast.Assign) and len(n.targets) == 1 and isinstance(n.targets[0], ast.Name) \
+                and isinstance(n.value, ast.Constant) and isinstance(n.value.value, bool):
+            good.add(n.targets[0].id)
+        elif isinstance(n, ast.Name) and isinstance(n.ctx, (ast.Store, ast.Del)):
+            bad.add(n.id)
+    # a Store Name that is the target of a constant-bool assignment was added to both sets: remove those counted once per such assignment
+    cnt_good: dict[str, int] = {}
+    cnt_all: dict[str, int] = {}
+    for n in ast.walk(fn):
+        if isinstance(n, ast.Name) and isinstance(n.ctx, (ast.Store, ast.Del)):
+            cnt_all[n.id] = cnt_all.get(n.id, 0) + 1
+        if isinstance(n, ast.Assign) and len(n.targets) == 1 and isinstance(n.targets[0], ast.Name) \
+                and isinstance(n.value, ast.Constant) and isinstance(n.value.value, bool):
+            cnt_good[n.targets[0].id] = cnt_good.get(n.targets[0].id, 0) + 1
+    args = {a.arg for a in ast.walk(fn) if isinstance(a, ast.arg)}
+    return {k for k in good if cnt_good.get(k) == cnt_all.get(k) and k not in args}
+
+
+def reaching_defs(g: CFG, target: int, var: str, assume: dict[str, bool] | None = None, skip_exc: bool = True) -> set[int]:
+    """CFG node ids of the bindings of `var` that can be the LAST one executed on a feasible path entry -> target
+    (g.entry stands for `the value at function entry`).  Feasibility: a branch edge is pruned when its condition, evaluated in
+    three-valued logic over `assume` (atoms that the function never changes, by normalised text) and the exactly tracked
+    one-bit local flags (bool_flags), contradicts the edge."""
+    assume = dict(assume or {})
+    flags = sorted(bool_flags(g.fn))
+    fidx = {f: i for i, f in enumerate(flags)}
+    start = (g.entry, tuple([None] * len(flags)), g.entry)
+    seen = {start}
+    stack = [start]
+    out: set[int] = set()
+    while stack:
+        nid, fl, last = stack.pop()
+        if nid == target:
+            out.add(last)
+        node = g.nodes[nid]
+        st = node.ast
+        nfl = fl
+        nlast = last
+        if st is not None and node.kind not in ("test",):
+            names = _assigned_names(st)
+            if var in names:
+                nlast = nid
+            for f in names & set(flags):
+                v = st.value.value if isinstance(st, ast.Assign) and isinstance(st.value, ast.Constant) else None
+                l = list(nfl)
+                l[fidx[f]] = v
+                nfl = tuple(l)
+        elif st is not None and node.kind == "test":
+            if var in {n.target.id for n in ast.walk(st.test) if isinstance(n, ast.NamedExpr) and isinstance(n.target, ast.Name)}:  # type: ignore[attr-defined]
+                nlast = nid
+        verdict = None
+        if node.kind == "test" and st is not None:
+            env: dict[str, Optional[bool]] = dict(assume)
+            for f, v in zip(flags, nfl):
+                env[f] = v
+            verdict = eval3(st.test, env)  # type: ignore[attr-defined]
+        for m in g.succ[nid]:
+            lab = g.edge_label.get((nid, m), "")
+            if lab == "exc" and skip_exc:
+                continue
+            if node.kind == "test" and lab != "exc":
+                is_true_edge = lab == "true"
+                if verdict is True and not is_true_edge:
+                    continue
+                if verdict is False and is_true_edge:
+                    continue
+            s2 = (m, nfl, nlast)
+            if s2 not in seen:
+                seen.add(s2)
+                stack.append(s2)
+    return out
